@@ -252,6 +252,21 @@ class Seams:
             if "seek" not in cls.__dict__:
                 raise MachineryError(f"{cls.__name__}.seek is missing: seam lost")
             self._wrap_method(cls, "seek", "seek", cond=lambda im, frame, *a: 0 <= frame < NFRAMES)
+            # Pillow's own frame counting (GifImageFile.n_frames walks to the end with
+            # update_image=False and seeks back) is not a processing step of the library: a
+            # fault injected into ITS seek-back leaves the caller's PIL object at the last frame
+            # with the first frame's pixels - Pillow's inconsistency, which the library cannot
+            # see (thorough seed 0 reported it as format:frame-index:pil).  Nested, not injected.
+            prop = cls.__dict__.get("n_frames")
+            if isinstance(prop, property):
+                def _n_frames(im, _get=prop.fget):
+                    seams.depth += 1
+                    try:
+                        return _get(im)
+                    finally:
+                        seams.depth -= 1
+
+                setattr(cls, "n_frames", property(_n_frames))
         for name in ("time", "Image", "_TEMP_DIR", "ImageIterator"):
             if not hasattr(common, name):
                 raise MachineryError(f"term_image.image.common.{name} is missing: seam lost")
